@@ -68,7 +68,14 @@ Info(G) ==
       ainc  == UNION {{<<f, G.inc[f][k]>> : k \in 1..Len(G.inc[f])} : f \in files}
       RECURSIVE anc(_)
       anc(s) == IF G.defs[s].ext = 0 THEN <<s>> ELSE <<s>> \o anc(G.defs[s].ext)
+      RECURSIVE sorted(_)
+      sorted(S) == IF S = {} THEN <<>> ELSE LET m == CHOOSE x \in S : \A y \in S : x <= y IN <<m>> \o sorted(S \ {m})
+      inf(f, K) == sorted({d \in alive : G.defs[d].k \in K /\ G.defs[d].f = f})
   IN [G      |-> G,
+      \* per file the definitions in textual order, by list of the AST (layer B walks them in this order)
+      byfile |-> [f \in files |-> [consts |-> inf(f, {"const"}), typedefs |-> inf(f, {"typedef"}),
+                                    sls |-> inf(f, {"struct"}) \o inf(f, {"union"}) \o inf(f, {"exception"}),
+                                    svcs |-> inf(f, {"service"})]],
       alive  |-> alive,
       files  |-> files,
       svcs   |-> svcs,
@@ -196,6 +203,26 @@ Allowed(I, Ar, R) ==
   /\ R.same    \* meaning of what is kept is unchanged
   /\ R.idem    \* trimming again changes nothing
   /\ \E P \in Interps(I, Ar.pats) : AllowedI(I, Ar, P, R)
+
+\* Design-level sanity of layer A: for every program and argument set there IS an allowed result -- the one that
+\* keeps exactly what must be kept (TLC checks Allowed(I, Ar, Ideal(I, Ar)) for every generated case).
+Ideal(I, Ar) ==
+  LET P     == CHOOSE P \in Interps(I, Ar.pats) : TRUE
+      sel   == Selected(I, P)
+      msel  == {w \in sel : FileOf(I, w[3]) = 1}
+      fns   == MustFns(I, P, sel)
+      svcs  == IF P = {} THEN UNION {AncSet(I, r) : r \in I.roots}
+               ELSE UNION {PathTo(I, w[3], w[1][1]) : w \in msel}
+      ext   == IF P = {} THEN {s \in svcs : I.G.defs[s].ext # 0}
+               ELSE UNION {PathTo(I, w[3], w[1][1]) \ {w[1][1]} : w \in msel}
+      roots == UNION {FnRefs(FnRec(I, sf)) : sf \in fns} \cup I.always
+      rMust == ReachFrom(I, roots \cup PresMust(I, Ar))
+      give  == {FileOf(I, d) : d \in I.cte \cup rMust}
+      inc0  == {e \in I.ainc : I.below[e[2]] \cap give # {}}
+                 \cup {<<FileOf(I, s), FileOf(I, I.G.defs[s].ext)>> : s \in {s \in ext : FileOf(I, s) # FileOf(I, I.G.defs[s].ext)}}
+      surv  == FileReach(inc0, {1})
+  IN [kept |-> {d \in rMust \cup svcs \cup I.cte : FileOf(I, d) \in surv},
+      fns  |-> fns, inc |-> {e \in inc0 : e[1] \in surv}, ext |-> ext, ok |-> TRUE, same |-> TRUE, idem |-> TRUE]
 
 \* which clause fails first (diagnostics for rejected observations)
 Why(I, Ar, R) ==
